@@ -25,7 +25,8 @@ GROUPS = {'keys': (0, 4), 'pedals': (5, 8), 'keyped': (0, 8), 'offtick': (9, 13)
 SETS = {
     'C05': [(0, 'pedheld', 'offtick', False, ('quick', 'thorough')), (0, 'sostdown', 'keyped', False, ('quick', 'thorough')),
             (0, 'both', 'keyped', False, ('quick', 'thorough')), (0, 'pedheld', 'pedals', True, ('quick', 'thorough')),
-            (0, 'pedheld', 'keyped', False, ('thorough',)), (0, 'both', 'offtick', False, ('thorough',))],
+            (0, 'pedheld', 'keyped', False, ('thorough',)), (0, 'both', 'offtick', False, ('thorough',)),
+            (9, 'down1', 'keys', False, ('thorough',))],      # percussion channel: passes with the 28 GiB limit (941 s)
     'C04': [(0, 'porta1', 'keys', False, ('quick', 'thorough')), (0, 'sostdown', 'keyped', False, ('quick', 'thorough')),
             (0, 'pedheld', 'offtick', False, ('quick', 'thorough')), (0, 'pedheld', 'keyped', False, ('thorough',)),
             (0, 'both', 'offtick', False, ('thorough',))],
